@@ -40,7 +40,7 @@ EXPLANATION = (
     'the dispatch test skips, and the transformer takes no fixed offset into the still indented line; R8 in the @ arm of the cmake scanner the path '
     'conditions imply that the name slice is not empty (difference bounds over `name +/- constant`); R9 a token of a directive line is indexed only '
     'under a length guard or IndexError handler; R10 after a placeholder is replaced the cmake scanner resumes behind the inserted value (symbolic '
-    'effect of the loop-body row). NOT decided: tokens of a #cmakedefine value that are set names being replaced by str(value) (legacy behaviour, kept '
+    'effect of the loop-body row). A dispatch test written as a regex call is decided from the language of its constant pattern (match / anchored search with a leading blank-star: tolerant; unanchored search: accepts a directive in the middle of a line). NOT decided: the header forms when prefix / comment / epilogue come from a record returned by a helper (NamedTuple of per-format syntax); tokens of a #cmakedefine value that are set names being replaced by str(value) (legacy behaviour, kept '
     'as is by R3); `#cmakedefineX` / `#mesondefineX` accepted by the prefix test of the dispatchers; backslash escapes in the cmake formats; the cmake scanner (index arithmetic over run-time '
     'strings); how many backslashes of a run the regex engine consumes for a concrete text (leftmost/greedy matching); whether a '
     'result that depends on the terminator/indentation reproduces it exactly (only independence is refuted); indentation of '
